@@ -194,6 +194,57 @@ theorem shift_invariance (s : Int) (cfg : WCfg) (ops : List Op) (hg : cfg.Good o
   have := rigid_motion 1 s (by decide) cfg ops hg env henv l
   simpa using this
 
+theorem T.aff_aff (p q : Int) (t : T) : (t.aff p 0).aff q 0 = t.aff (q * p) 0 := by
+  cases t <;> simp [T.aff, Int.mul_assoc]
+
+theorem Wv.aff_aff (p q : Int) (w : Wv) : (w.aff p 0).aff q 0 = w.aff (q * p) 0 := by
+  simp [Wv.aff, T.aff_aff, List.map_map, Function.comp_def]
+
+/-- **rational scaling** (every program): two runs whose input times and delays are the multiples `p·` and `q·` of a common
+    base (`p, q > 0`) — i.e. one is the other scaled by the rational `p/q`; for coprime `p, q` such a base exists whenever
+    both runs have integer tick times — have results in the same ratio: `q · result_p = p · result_q` on every signal.
+    In particular scaling by 1/2 (`p = 1, q = 2`): halving all times and delays halves every transition time. -/
+theorem rational_scaling (p q : Int) (hp : 0 < p) (hq : 0 < q) (cfg : WCfg) (ops : List Op) (hg : cfg.Good ops) (env : Nat → Wv)
+    (henv : ∀ l, (env l).ok) (l : Nat) :
+    (simWave ⟨fun l a b => p * cfg.delay l a b, cfg.cap⟩ ops (fun x => (env x).aff p 0) l).aff q 0 =
+    (simWave ⟨fun l a b => q * cfg.delay l a b, cfg.cap⟩ ops (fun x => (env x).aff q 0) l).aff p 0 := by
+  rw [rigid_motion p 0 hp cfg ops hg env henv l, rigid_motion q 0 hq cfg ops hg env henv l, Wv.aff_aff, Wv.aff_aff, Int.mul_comm]
+
+/-- the scaled result is determined: scaling is injective on waveforms, so the run on the base grid is THE waveform whose
+    `k`-fold is the run on the `k`-fold grid ("dividing by k") -/
+theorem scale_down_unique (k : Int) (hk : 0 < k) (cfg : WCfg) (ops : List Op) (hg : cfg.Good ops) (env : Nat → Wv)
+    (henv : ∀ l, (env l).ok) (l : Nat) (w : Wv)
+    (h : w.aff k 0 = simWave ⟨fun l a b => k * cfg.delay l a b, cfg.cap⟩ ops (fun x => (env x).aff k 0) l) :
+    w = simWave cfg ops env l := by
+  rw [rigid_motion k 0 hk cfg ops hg env henv l] at h
+  have hinj : ∀ a b : Wv, a.aff k 0 = b.aff k 0 → a = b := by
+    intro a b hab
+    cases a with | mk ae at_ => cases b with | mk be bt =>
+    simp only [Wv.aff, Wv.mk.injEq] at hab
+    have hmap : ∀ (x y : List T), x.map (T.aff k 0) = y.map (T.aff k 0) → x = y := by
+      intro x
+      induction x with
+      | nil => intro y hy; cases y with | nil => rfl | cons _ _ => simp at hy
+      | cons a x ih =>
+        intro y hy
+        cases y with
+        | nil => simp at hy
+        | cons b y =>
+          simp only [List.map_cons, List.cons.injEq] at hy
+          rw [T.aff_inj k 0 hk a b hy.1, ih y hy.2]
+    have h1 : ae = be := hmap _ _ hab.1
+    have h2 : at_ = bt := T.aff_inj k 0 hk _ _ hab.2
+    rw [h1, h2]
+  exact hinj _ _ h
+
+/-- non-vacuity (scaling by 1/2 and by 3/2): the NAND example on the grids 1, 2 and 3 -/
+example :
+    (waveSem ⟨fun _ _ _ => 2, fun _ => 4⟩ ⟨0x7777, 7, [0, 1, 9, 9]⟩ [(⟨[T.tmin], T.tmax⟩ : Wv), (⟨[T.fin 6], T.tmax⟩ : Wv), Wv.empty, Wv.empty])
+      = (waveSem ⟨fun _ _ _ => 1, fun _ => 4⟩ ⟨0x7777, 7, [0, 1, 9, 9]⟩ [(⟨[T.tmin], T.tmax⟩ : Wv), (⟨[T.fin 3], T.tmax⟩ : Wv), Wv.empty, Wv.empty]).aff 2 0 ∧
+    (waveSem ⟨fun _ _ _ => 3, fun _ => 4⟩ ⟨0x7777, 7, [0, 1, 9, 9]⟩ [(⟨[T.tmin], T.tmax⟩ : Wv), (⟨[T.fin 9], T.tmax⟩ : Wv), Wv.empty, Wv.empty]).aff 2 0
+      = (waveSem ⟨fun _ _ _ => 2, fun _ => 4⟩ ⟨0x7777, 7, [0, 1, 9, 9]⟩ [(⟨[T.tmin], T.tmax⟩ : Wv), (⟨[T.fin 6], T.tmax⟩ : Wv), Wv.empty, Wv.empty]).aff 3 0 := by
+  decide +kernel
+
 /-- non-vacuity: shifting the NAND example of C03 by 7 -/
 example : (waveSem ⟨fun _ _ _ => 1, fun _ => 4⟩ ⟨0x7777, 7, [0, 1, 9, 9]⟩
     [(⟨[T.tmin], T.tmax⟩ : Wv).aff 1 7, (⟨[T.fin 3], T.tmax⟩ : Wv).aff 1 7, Wv.empty, Wv.empty])
